@@ -165,11 +165,63 @@ def check_guard_boundary(acc, wd):
         check_case(acc, sch, w, mod, 'GB3', ['guard-boundary'], 'count-%d' % n, {'e': [{'a': 1, 'b': 2}] * n}, '<')
 
 
+def check_packed(acc):
+    """Packed mode (docs/python_codec.rst): a generated descriptor re-based on prophy.struct_packed has no padding at
+    all; packed structs nested in packed structs, in arrays and optionals. Expected bytes: the fields one after the other."""
+    import struct as _st
+    import prophy
+
+    def mk(name, desc):
+        return prophy.struct_generator(name, (prophy.struct_packed,), {'_descriptor': desc})
+    In = mk('PkIn', [('a', prophy.u32), ('b', prophy.u8)])
+    Dyn = mk('PkDyn', [('n', prophy.u32), ('d', prophy.array(prophy.u8, bound='n'))])
+    Top = mk('PkTop', [('x', prophy.u8), ('y', prophy.u32), ('z', prophy.u8)])
+    Nest = mk('PkNest', [('h', prophy.u8), ('i', In), ('t', prophy.u16)])
+    Arr = mk('PkArr', [('k', prophy.u8), ('e', prophy.array(In, size=2)), ('t', prophy.u8)])
+    Seq = mk('PkSeq', [('m', prophy.u8), ('s', prophy.array(Dyn, bound='m')), ('t', prophy.u32)])
+    for e in '<>':
+        cases = []
+        t = Top(); t.x, t.y, t.z = 1, 0x01020304, 9
+        cases.append(('PkTop', Top, t, _st.pack(e + 'BIB', 1, 0x01020304, 9)))
+        i = In(); i.a, i.b = 0x0a0b0c0d, 7
+        cases.append(('PkIn', In, i, _st.pack(e + 'IB', 0x0a0b0c0d, 7)))
+        n = Nest(); n.h = 5; n.i.a, n.i.b = 77, 8; n.t = 0x1234
+        cases.append(('PkNest', Nest, n, _st.pack(e + 'BIBH', 5, 77, 8, 0x1234)))
+        a = Arr(); a.k = 3; a.e[0].a, a.e[0].b, a.e[1].a, a.e[1].b = 1, 2, 3, 4; a.t = 6
+        cases.append(('PkArr', Arr, a, _st.pack(e + 'BIBIBB', 3, 1, 2, 3, 4, 6)))
+        for lens in ((), (1,), (3, 0), (2, 5)):
+            q = Seq(); q.t = 0xdeadbeef
+            exp = _st.pack(e + 'B', len(lens))
+            for ln in lens:
+                el = q.s.add()
+                el.d[:] = list(range(1, ln + 1))
+                exp += _st.pack(e + 'I', ln) + bytes(bytearray(range(1, ln + 1)))
+            exp += _st.pack(e + 'I', 0xdeadbeef)
+            cases.append(('PkSeq%r' % (lens,), Seq, q, exp))
+        for name, cls, msg, exp in cases:
+            acc.ev()
+            acc.count('packed_round_trips')
+            wit = {'packed_type': name, 'endian': e, 'expected': C.hexs(exp)}
+            try:
+                enc = msg.encode(e)
+                m2 = cls()
+                used = m2.decode(exp, e)
+                again = m2.encode(e)
+            except Exception as ex:  # noqa
+                acc.violation(PROP, 'packed:raises:%s' % type(ex).__name__, dict(wit, error='%s: %s' % (type(ex).__name__, ex)))
+                continue
+            if enc != exp or used != len(exp) or again != exp:
+                acc.violation(PROP, 'packed:%s' % ('encode-differs' if enc != exp else 'decode-consumed-length' if used != len(exp)
+                                                   else 'reencode-differs'),
+                              dict(wit, encoded=C.hexs(enc), consumed=used, reencoded=C.hexs(again)))
+
+
 def run_shard(spec):
     acc = Acc()
     with C.Workdir() as wd:
         if spec.get('seed', 1) % 1000 == 0 and spec['kind'] != 'replay':
             check_guard_boundary(acc, wd)
+            check_packed(acc)
         for sch, names, tagmap, mod, nodes, rng in C.iter_py_schemas(spec, acc, wd):
             w = W.Wire(sch)
             for n in names:
